@@ -420,6 +420,7 @@ func maybeNamedDeep(t *rapid.T, ty desc.T) desc.T {
 func finishScalar(t *rapid.T, c *ScalarCase) {
 	c.T = maybeNamedDeep(t, c.T)
 	c.ViaPtr = rapid.IntRange(0, 5).Draw(t, "viaPtr") == 0
+	c.LateRule = rapid.IntRange(0, 7).Draw(t, "lateRule") == 0
 }
 
 func (g *structGen) scalarField(name string) (desc.F, desc.V) {
